@@ -107,19 +107,18 @@ Definition sym_T (rules toks : list string) : transformer :=
 
 Definition log_eqb (a b : log) : bool := list_eqb path_eqb a b.
 
-(* one tree with the four observed (value, log) pairs, in the order
-   Transformer, Transformer_NonRecursive, Transformer_InPlace, Transformer_InPlaceRecursive *)
-Definition tr_case := (list string * list string * stree * list (value * log))%type.
+(* one tree with the observed value (the same for the four classes), the observed call log of
+   Transformer / Transformer_NonRecursive / Transformer_InPlaceRecursive (the same list for the
+   three) and the observed call log of Transformer_InPlace *)
+Definition tr_case := (list string * list string * stree * value * log * log)%type.
 
 Definition tr_check (c : tr_case) : bool :=
-  let '(rules, toks, t, obs) := c in
+  let '(rules, toks, t, v, lpost, lip) := c in
   let T := sym_T rules toks in
-  let m := [Some (transform_rec T t); transform_nr T t; transform_ip T t; Some (transform_ipr T t)] in
-  forall2b (fun (a : option (value * log)) (b : value * log) =>
-              match a with
-              | Some (v, l) => value_eqb v (fst b) && log_eqb l (snd b)
-              | None => false
-              end) m obs.
+  let ok (m : option (value * log)) (l : log) :=
+    match m with Some (v', l') => value_eqb v' v && log_eqb l' l | None => false end in
+  ok (Some (transform_rec T t)) lpost && ok (transform_nr T t) lpost
+  && ok (transform_ip T t) lip && ok (Some (transform_ipr T t)) lpost.
 
 (* embedded: derivation, the value lark returned with transformer=T, the tree without *)
 Definition emb_case := (list string * list string * bool * dtree * value * stree)%type.
